@@ -113,7 +113,8 @@ def model_correspondence(case, exported, res):
         else:
             for v, e in lvs:
                 same_expr(path + ("local", v), e, prog.local_variables[v])
-        ml = sorted((lk[0], tuple(sorted((t[0] + "." + t[1]) for t in lk[1:]))) for lk in lks)
+        # targets and endpoints come out of the model already in their string encodings (BartiqModel/Qref.lean: targetToStr, Endpoint.toStr)
+        ml = sorted((lk[0], tuple(sorted(lk[1:]))) for lk in lks)
         rl = sorted((str(lk.source), tuple(sorted(lk.targets))) for lk in prog.linked_params)
         if ml != rl:
             diffs.append((path, "linked_params", rl, ml))
@@ -129,8 +130,7 @@ def model_correspondence(case, exported, res):
         else:
             for rn, _, val in ress:
                 same_expr(path + ("resource", rn), val, rr[rn].value)
-        epn = lambda e: (e[1] if e[0] == "_" else e[0] + "." + e[1])  # noqa: E731
-        mc = sorted((epn(c[0]), epn(c[1])) for c in conns)
+        mc = sorted((c[0], c[1]) for c in conns)
         rc = sorted((c.source, c.target) for c in prog.connections)
         if mc != rc:
             diffs.append((path, "connections", rc, mc))
@@ -457,6 +457,57 @@ def field_stream(ctx):
             ctx.sample({"field_stream": q})
 
 
+def codec_stream(ctx):
+    """the string encodings of connection endpoints and link targets (theorems C13_endpoint_encoding_roundtrip,
+    C13_link_target_encoding_roundtrip and the NamesOK hypotheses of C13_roundtrip_structure): the model's `Endpoint.ofStr`,
+    `targetOfStr` and their inverses against `_endpoint_from_qref`, `_endpoint_to_qref`, the `rsplit` of `Routine.from_qref`
+    and `_linked_params_to_qref`, on strings with 0, 1 and several dots"""
+    from bartiq import _routine as R
+    from .. import model
+
+    rng = ctx.rng
+    parts = ["a", "b", "in_0", "out", "child", "x1", "Mid", "q_2", "n", "N"]
+    strs = []
+    for _ in range(ctx.n(150, 2000)):
+        k = rng.choice([1, 1, 2, 2, 2, 3, 4])
+        strs.append(".".join(rng.choice(parts) for _ in range(k)))
+    lines = [f"endpoint {x}" for x in strs] + [f"target {x}" for x in strs]
+    outs = model.run_driver(lines)
+    for x, o in zip(strs, outs[:len(strs)]):
+        ctx.stats["evaluations"] += 1
+        ctx.stats["model_vs_impl_compared"] += 1
+        try:
+            e = R._endpoint_from_qref(x)
+            real = ["ok", "_" if e.routine_name is None else e.routine_name, e.port_name, R._endpoint_to_qref(e)]
+        except TypeError:
+            real = ["error", "TypeError"]
+        ctx.stats["codec_endpoint_" + real[0]] += 1
+        if list(o) != real:
+            ctx.disagreement("Endpoint.ofStr / toStr vs _endpoint_from_qref / _endpoint_to_qref", {"endpoint": x}, list(o), real)
+            return
+        if real[0] == "ok" and real[3] != x:
+            ctx.violation("failing-input", "an endpoint string is not read back as written", {"endpoint": x}, real[3], x)
+            return
+    for x, o in zip(strs, outs[len(strs):]):
+        ctx.stats["evaluations"] += 1
+        ctx.stats["model_vs_impl_compared"] += 1
+        try:
+            t = ((split := x.rsplit(".", 1))[0], split[1])
+            back = R._linked_params_to_qref({"s": (t,)})[0].targets[0]
+            real = ["ok", t[0] or "_", t[1] or "_", back]
+        except IndexError:
+            real = ["error", "IndexError"]
+        ctx.stats["codec_target_" + real[0]] += 1
+        if list(o) != real:
+            ctx.disagreement("targetOfStr / targetToStr vs rsplit / _linked_params_to_qref", {"target": x}, list(o), real)
+            return
+        if real[0] == "ok" and real[3] != x:
+            ctx.violation("failing-input", "a link target string is not read back as written", {"target": x}, real[3], x)
+            return
+        if real[0] == "ok" and x.count(".") >= 2:
+            ctx.nontrivial(("deep-target", x))
+
+
 def run(ctx, widen=False):
     n = ctx.n(300, 8000) * (3 if widen else 1)
     ctx.rule = ("routine trees with repetitions of all five kinds (70% symbolic parameters), deep links, locals; export -> validate -> import for the uncompiled routine and "
@@ -464,6 +515,7 @@ def run(ctx, widen=False):
     known_witnesses(ctx)
     corpus(ctx)
     field_stream(ctx)
+    codec_stream(ctx)
     base = ctx.seed * 1000003 + 10500000
     pipeline.run_stream(ctx, __name__, range(base, base + n), use_model=False)
 
